@@ -77,7 +77,11 @@ def sign_run(toks):
     return any(a in P.SIGNS and b in P.SIGNS for a, b in zip(toks, toks[1:]))
 
 
-def categorize(toks, kind):
+def categorize(toks, kind, style=None):
+    if style == 'tab':
+        return 'tab-as-whitespace'
+    if style == 'nl':
+        return 'newline-as-whitespace'
     if any(a == '%' and b == '%' for a, b in zip(toks, toks[1:])):
         return 'double-percent'
     if sign_run(toks) and '^' in toks and kind in ('value',):
@@ -116,23 +120,23 @@ def check_one(o, styles, rnd):
         p = P.run_parser(text, want_value=tree is not None and not P.has_refs(tree))
         n += 1
         if p.status == 'escape':
-            probs.append(('escape', {'text': text, 'exception': p.exc}))
+            probs.append(('escape', {'text': text, 'exception': p.exc, 'style': st}))
             continue
         if o['g'] == 'rej':
             if p.status != 'rej':
-                probs.append(('accepted-invalid', {'text': text, 'parsed_as': p.expr}))
+                probs.append(('accepted-invalid', {'text': text, 'parsed_as': p.expr, 'style': st}))
             continue
         if p.status != 'acc':
-            probs.append(('rejected-valid', {'text': text, 'expected_tree': o['r']}))
+            probs.append(('rejected-valid', {'text': text, 'expected_tree': o['r'], 'style': st}))
             continue
         if not run:
             if p.expr != o['r']:
-                probs.append(('render', {'text': text, 'expected': o['r'], 'observed': p.expr}))
+                probs.append(('render', {'text': text, 'expected': o['r'], 'observed': p.expr, 'style': st}))
                 continue
             if st != 'parens':
                 exp_rpn = P.postorder(tree)
                 if P.norm_rpn(p.rpn) != [x.upper() if x not in ('u-', 'u+') else x for x in exp_rpn]:
-                    probs.append(('rpn', {'text': text, 'expected': exp_rpn, 'observed': p.rpn}))
+                    probs.append(('rpn', {'text': text, 'expected': exp_rpn, 'observed': p.rpn, 'style': st}))
                     continue
         if not P.has_refs(tree):
             if want is None:
@@ -144,7 +148,7 @@ def check_one(o, styles, rnd):
                 got = ('ok', V.alpha(p.value))
             if want[0] == 'ok' and (got[0] != 'ok' or not _same(want[1], got[1])):
                 probs.append(('value', {
-                    'text': text, 'tree': o['r'],
+                    'text': text, 'tree': o['r'], 'style': st,
                     'expected': V.show(want[1]),
                     'observed': V.show(got[1]) if got[0] == 'ok' else got[1]}))
     return probs, n
@@ -172,6 +176,8 @@ def _shard(args):
                 ['min', rnd.choice(['spaced', 'lower', 'mixed'])]
         else:
             styles = ['min', 'spaced'] if thorough else ['min']
+        if rnd.random() < 0.01:
+            styles = styles + [rnd.choice(['tab', 'nl'])]
         probs, n = check_one(o, styles, rnd)
         out.append((o['s'], o['g'], n, probs))
     return out
@@ -207,7 +213,7 @@ def replay(rep, obl, pid, kinds=None):
             for kind, detail in probs:
                 if kinds and kind not in kinds:
                     continue
-                cat = categorize(toks, kind)
+                cat = categorize(toks, kind, detail.get('style'))
                 sig = {'cat': cat, 'kind': kind} if cat else \
                     {'kind': kind, 'toks': ' '.join(toks)}
                 detail = dict(detail, tokens=toks, grammar=g,
